@@ -177,6 +177,7 @@ func (c15) Run(ctx *core.RunCtx) {
 		if dq > (^uint64(0))/8 {
 			m = 1
 		}
+		saved := points[dj]
 		if ch.Bool("degenerate-zero") {
 			degenerate, points[dj] = 2, dq*m
 		} else {
@@ -186,7 +187,7 @@ func (c15) Run(ctx *core.RunCtx) {
 		for k, y := range points {
 			if k != dj && y == points[dj] {
 				degenerate = 0 // (not distinct as integers: leave the run as it was)
-				points[dj] = y + 1
+				points[dj] = saved
 			}
 		}
 		if degenerate != 0 {
@@ -231,6 +232,12 @@ func (c15) Run(ctx *core.RunCtx) {
 				break
 			}
 			share := p.thr.AllocateThresholdSecretShare()
+			if ch.Chance("share-receiver-used-before", 1, 3) {
+				// the dealer writes the share into an object that held another value before (it keeps one share
+				// object and fills it for one recipient after the other)
+				catalog.FillPolyQP(*params.RingQP(), share.Poly, core.NewXoshiro(uint64(i*31+j)+9))
+				ctx.Count("probe.setup-share-receiver-used-before", 1)
+			}
 			pk, site, msg := core.Protect(func() { p.thr.GenShamirSecretShare(r.parties[j].point, poly, &share) })
 			if pk {
 				ctx.Fail("panic", "GenShamirSecretShare", "GenShamirSecretShare panicked in %s: %s", site, msg)
@@ -350,11 +357,18 @@ func (c15) Run(ctx *core.RunCtx) {
 				return false
 			}
 			if err != nil {
-				in := map[int]bool{}
-				for _, x := range subset {
-					in[x] = true
+				// (the drawn pair, or another pair that the replaced point happens to form modulo another prime)
+				refusable := false
+				for _, a := range subset {
+					for _, b := range subset {
+						for _, q := range moduli {
+							if a < b && points[a]%q == points[b]%q {
+								refusable = true
+							}
+						}
+					}
 				}
-				if degenerate == 1 && in[di] && in[dj] || degenerate == 2 && in[dj] && t > 1 {
+				if degenerate != 0 && refusable {
 					// refused: two of the active points coincide modulo a prime (or one vanishes): no interpolation
 					ctx.Count("probe.degenerate-points-refused", 1)
 					ctx.Event("reconstruction %s subset=%v refused: %v", tag, subset, err)
